@@ -8,6 +8,7 @@ from ..engine import flow
 from ..engine.mutate import Mutant, Variant, in_function, replace_once, sub_once
 from ..engine.runner import Rule
 from ..engine.source import AnalysisError
+from . import shared
 from .common import callee_name, calls_in, kwarg, stmts_of
 
 EXPLANATION = (
@@ -267,6 +268,7 @@ def _guard_tests(tr, i):
 
 def rule_transitions(ctx):
     """R-C09-5: state-transition relation at the write sites."""
+    shared.check_completion_iterates_products(ctx, "outputs of a step that completes while detached keep OUTDATED although the step is SUCCEEDED (a succeeded step has all its outputs built)")
     # file.set_state(OUTDATED) only under == BUILT ; set_state(BUILT) only under == OUTDATED
     n = 0
     for fq in ("workflow.Workflow.mark_file_outdated", "step.Step.mark_completed"):
@@ -453,6 +455,7 @@ def _drop_trigger(name, file):
 
 
 MUTANTS = [
+    Mutant("completion-via-sinks", "step.py", in_function("Step.mark_completed", lambda s: s.replace("            for file in self.products(File):\n                if file.get_state() == FileState.OUTDATED:", "            for file in self.sinks(File):\n                if file.get_state() == FileState.OUTDATED:") if "if file.get_state() == FileState.OUTDATED:" in s else None), ("R-C09-5",)),
     _drop_trigger("file_check_undeclared_detached_upd", "file.py"),
     _drop_trigger("node_check_creator_kind_upd", "workflow.py"),
     _drop_trigger("dependency_check_kinds_ins", "workflow.py"),
